@@ -4,6 +4,7 @@
 import XC.Model.C47
 import XC.Proofs.C47_Round
 import XC.Proofs.C47_Ake
+import XC.Proofs.C47_NoPanic
 namespace XC.C47
 
 /-! ## fragmentation -/
@@ -636,5 +637,419 @@ theorem akeInv_recv (p : Party) (h : AkeInv p) (i : In)
     · simp only [Party.recv, ha] at hr
       (repeat' split at hr) <;> (try simp at hr) <;> close_inv
     · simp [Party.recv, ha] at hr; close_inv
+
+/-! ## Receive never panics — all message types (fixed code bd0cb13 + af2a104) -/
+
+/-- the invariant: what the AKE code dereferences is there (`AkeInv`), and the key-slot cache has four
+    slots whose used entries hold pairwise distinct key-id pairs (`SlotInv`) -/
+def Inv (p : Party) : Prop := AkeInv p ∧ SlotInv p.slots
+
+theorem inv_init (side : Nat) : Inv { side := side } := by
+  refine ⟨akeInv_init side, rfl, ?_⟩
+  simp [usedKeys]
+
+theorem akeInv_of_view {p q : Party} (h : akeView q = akeView p) (hi : AkeInv p) : AkeInv q := by
+  simp only [akeView, Prod.mk.injEq] at h
+  obtain ⟨h1, h2, h3, h4⟩ := h
+  unfold AkeInv at *
+  rw [h1, h2, h3, h4]; exact hi
+
+/-- data messages (genuine, replayed, forged, with any TLVs / SMP content): `Receive` returns -/
+theorem recv_data_no_panic (p : Party) (h : Inv p) (ok ign : Bool) (skid rkid : Nat) (g : Option DataMsg) :
+    p.recv (.data ok ign skid rkid g) ≠ .panic := by
+  obtain ⟨q, o, hq, _⟩ := recv_data_ok p ok ign skid rkid g h.2
+  rw [hq]; exact fun e => by cases e
+
+/-- **recv_no_panic.** Under `Inv`, `Receive` returns for every input: plaintext, queries, malformed
+    messages, DH commit / DH key / reveal-signature / signature (valid or not), data messages of any
+    content (SMP 1–4, abort, disconnect, unknown TLVs). No `R.panic` outcome of the model — nil `c.gy` /
+    `c.y` / `c.x`, `generateData`'s "failed to generate sending keys" — is reachable. -/
+theorem recv_no_panic (p : Party) (h : Inv p) (i : In) : p.recv i ≠ .panic := by
+  cases i with
+  | data a b c d e => exact recv_data_no_panic p h a b c d e
+  | plain b => exact recv_ake_no_panic p h.1 _ (fun _ _ _ _ _ e => by cases e)
+  | bad => exact recv_ake_no_panic p h.1 _ (fun _ _ _ _ _ e => by cases e)
+  | query dg => exact recv_ake_no_panic p h.1 _ (fun _ _ _ _ _ e => by cases e)
+  | commit a b c => exact recv_ake_no_panic p h.1 _ (fun _ _ _ _ _ e => by cases e)
+  | key a b c => exact recv_ake_no_panic p h.1 _ (fun _ _ _ _ _ e => by cases e)
+  | reveal a b c d => exact recv_ake_no_panic p h.1 _ (fun _ _ _ _ _ e => by cases e)
+  | sig a b => exact recv_ake_no_panic p h.1 _ (fun _ _ _ _ _ e => by cases e)
+
+/-- **the invariant is preserved by every `Receive`** -/
+theorem inv_recv (p : Party) (h : Inv p) (i : In) (p' : Party) (o : Out) (hr : p.recv i = .ok (p', o)) :
+    Inv p' := by
+  refine ⟨?_, slotInv_recv p i h.2 p' o hr⟩
+  cases i with
+  | data a b c d e =>
+    obtain ⟨q, o', hq, hk⟩ := recv_data_ok p a b c d e h.2
+    rw [hq] at hr
+    injection hr with hr; injection hr with hr _
+    subst hr
+    exact akeInv_of_view hk.view h.1
+  | plain b => exact akeInv_recv p h.1 _ (fun _ _ _ _ _ e => by cases e) p' o hr
+  | bad => exact akeInv_recv p h.1 _ (fun _ _ _ _ _ e => by cases e) p' o hr
+  | query dg => exact akeInv_recv p h.1 _ (fun _ _ _ _ _ e => by cases e) p' o hr
+  | commit a b c => exact akeInv_recv p h.1 _ (fun _ _ _ _ _ e => by cases e) p' o hr
+  | key a b c => exact akeInv_recv p h.1 _ (fun _ _ _ _ _ e => by cases e) p' o hr
+  | reveal a b c d => exact akeInv_recv p h.1 _ (fun _ _ _ _ _ e => by cases e) p' o hr
+  | sig a b => exact akeInv_recv p h.1 _ (fun _ _ _ _ _ e => by cases e) p' o hr
+
+/-- the byte-level `Receive` (fragment front end, framing, base64, classification): never panics and
+    keeps the invariant, for every byte string and every oracle -/
+theorem recvBytes_no_panic (p : Party) (h : Inv p) (orc : Oracle) (inp : Bytes) :
+    p.recvBytes orc inp ≠ .panic ∧ ∀ p' o, p.recvBytes orc inp = .ok (p', o) → Inv p' := by
+  unfold Party.recvBytes
+  have hfs : ∀ fs, Inv { p with fs := fs } := fun fs => h
+  generalize (frontEnd p.fs inp) = r
+  obtain ⟨fs, fo⟩ := r
+  cases fo with
+  | err =>
+    dsimp only
+    refine ⟨(fun e => by cases e), ?_⟩
+    intro p' o hr
+    simp only [R.ok.injEq, Prod.mk.injEq] at hr
+    obtain ⟨rfl, _⟩ := hr
+    exact hfs fs
+  | nothing =>
+    dsimp only
+    refine ⟨(fun e => by cases e), ?_⟩
+    intro p' o hr
+    simp only [R.ok.injEq, Prod.mk.injEq] at hr
+    obtain ⟨rfl, _⟩ := hr
+    exact hfs fs
+  | msg m =>
+    dsimp only
+    exact ⟨recv_no_panic _ (hfs fs) _, fun p' o hr => inv_recv _ (hfs fs) _ p' o hr⟩
+
+/-- any sequence of `Receive` calls on a fresh conversation -/
+def recvAll (p : Party) : List (Oracle × Bytes) → R Party
+  | [] => .ok p
+  | (orc, b) :: rest =>
+    match p.recvBytes orc b with
+    | .panic => .panic
+    | .ok (p', _) => recvAll p' rest
+
+/-- **Receive never panics on any input**: no sequence of byte strings makes a fresh conversation's
+    `Receive` panic (model of the fixed code) -/
+theorem receive_never_panics (side : Nat) (ins : List (Oracle × Bytes)) :
+    recvAll { side := side } ins ≠ .panic := by
+  have : ∀ (ins : List (Oracle × Bytes)) (p : Party), Inv p → recvAll p ins ≠ .panic := by
+    intro ins
+    induction ins with
+    | nil => intro p _ e; cases e
+    | cons x rest ih =>
+      intro p hp
+      obtain ⟨orc, b⟩ := x
+      obtain ⟨h1, h2⟩ := recvBytes_no_panic p hp orc b
+      unfold recvAll
+      cases hr : p.recvBytes orc b with
+      | panic => exact absurd hr h1
+      | ok r => obtain ⟨p', o⟩ := r; exact ih p' (h2 p' o hr)
+  exact this ins _ (inv_init side)
+
+/-- `Send` and `End` cannot hit the `generateData` panic either -/
+theorem send_no_panic (p : Party) (h : Inv p) (text : Bytes) : p.send text ≠ .panic := by
+  unfold Party.send
+  split
+  · exact fun e => by cases e
+  · obtain ⟨q, m, hq, _⟩ := genData_ok p text none h.2
+    rw [hq]; exact fun e => by cases e
+  · exact fun e => by cases e
+
+theorem endConv_no_panic (p : Party) (h : Inv p) : p.endConv ≠ .panic := by
+  unfold Party.endConv
+  split
+  · exact fun e => by cases e
+  · obtain ⟨q, m, hq, _⟩ := genData_ok { p with st := .plain } [] (some .disconnect) h.2
+    rw [hq]; exact fun e => by cases e
+  · exact fun e => by cases e
+
+
+/-! ## the 8-byte message counter -/
+
+theorem natOfLE_lt (r : Bytes) : natOfLE r < 256 ^ r.length := by
+  induction r with
+  | nil => simp [natOfLE]
+  | cons b r ih =>
+    have hb := b.toNat_lt
+    simp only [natOfLE, List.length_cons, Nat.pow_succ]
+    omega
+
+/-- `incCounter`'s loop, on the reversed array, is +1 modulo 256^n -/
+theorem natOfLE_incRev (r : Bytes) : natOfLE (incRev r) = (natOfLE r + 1) % 256 ^ r.length := by
+  induction r with
+  | nil => simp [incRev, natOfLE]
+  | cons b r ih =>
+    have hb := b.toNat_lt
+    have hr := natOfLE_lt r
+    unfold incRev
+    by_cases h : b + 1 = 0
+    · have hb255 : b.toNat = 255 := by
+        have := congrArg UInt8.toNat h
+        simp [UInt8.toNat_add] at this
+        omega
+      have h0 : (b + 1).toNat = 0 := by rw [h]; rfl
+      rw [if_pos h]
+      show (b + 1).toNat + 256 * natOfLE (incRev r) = (b.toNat + 256 * natOfLE r + 1) % 256 ^ (r.length + 1)
+      rw [h0, ih, hb255, Nat.pow_succ, Nat.mul_comm (256 ^ r.length) 256]
+      have e : 255 + 256 * natOfLE r + 1 = 256 * (natOfLE r + 1) := by omega
+      rw [e, Nat.mul_mod_mul_left]
+      omega
+    · have hne : b.toNat ≠ 255 := by
+        intro e
+        apply h
+        apply UInt8.toNat_inj.mp
+        simp [UInt8.toNat_add, e]
+      have hb1 : (b + 1).toNat = b.toNat + 1 := by
+        simp [UInt8.toNat_add]; omega
+      simp only [h, if_false, natOfLE, hb1, List.length_cons, Nat.pow_succ]
+      rw [Nat.mod_eq_of_lt]
+      · omega
+      · omega
+
+/-- **counter_monotone (increment).** `incCounter` as written is +1 on the big-endian value, modulo 2^64 -/
+theorem natOfBE_incCounter (c : Bytes) : natOfBE (incCounter c) = (natOfBE c + 1) % 256 ^ c.length := by
+  simp [natOfBE, incCounter, natOfLE_incRev]
+
+theorem incCounter_length (c : Bytes) : (incCounter c).length = c.length := by
+  have : ∀ r : Bytes, (incRev r).length = r.length := by
+    intro r; induction r with
+    | nil => rfl
+    | cons b r ih => unfold incRev; split <;> simp [ih]
+  simp [incCounter, this]
+
+theorem natOfLE_append (a b : Bytes) : natOfLE (a ++ b) = natOfLE a + 256 ^ a.length * natOfLE b := by
+  induction a with
+  | nil => simp [natOfLE]
+  | cons x r ih => simp only [List.cons_append, natOfLE, ih, List.length_cons, Nat.pow_succ]; rw [Nat.mul_add]; ac_rfl
+
+theorem natOfBE_cons (a : UInt8) (r : Bytes) : natOfBE (a :: r) = a.toNat * 256 ^ r.length + natOfBE r := by
+  simp [natOfBE, natOfLE_append, natOfLE]; ac_rfl
+
+theorem natOfBE_lt (r : Bytes) : natOfBE r < 256 ^ r.length := by
+  have := natOfLE_lt r.reverse
+  simpa [natOfBE] using this
+
+/-- **counter_monotone (comparison).** `bytes.Compare(a, b) > 0` on equally long arrays is `>` on the
+    big-endian values: a data message is accepted iff its counter is strictly greater than the last one
+    accepted in that key slot -/
+theorem bytesGt_iff (a b : Bytes) (h : a.length = b.length) : bytesGt a b = true ↔ natOfBE a > natOfBE b := by
+  induction a generalizing b with
+  | nil => cases b <;> simp_all [bytesGt, natOfBE, natOfLE]
+  | cons x r ih =>
+    cases b with
+    | nil => simp at h
+    | cons y s =>
+      have hl : r.length = s.length := by simpa using h
+      have hr := natOfBE_lt r
+      have hs := natOfBE_lt s
+      rw [natOfBE_cons, natOfBE_cons, hl]
+      rw [hl] at hr
+      have hpos : 0 < 256 ^ s.length := Nat.pow_pos (by omega)
+      unfold bytesGt
+      by_cases h1 : x.toNat > y.toNat
+      · simp only [h1, if_true, true_iff]
+        have : (y.toNat + 1) * 256 ^ s.length ≤ x.toNat * 256 ^ s.length := Nat.mul_le_mul_right _ h1
+        rw [Nat.add_mul] at this; omega
+      · simp only [h1, if_false]
+        by_cases h2 : x.toNat < y.toNat
+        · simp only [h2, if_true]
+          have : (x.toNat + 1) * 256 ^ s.length ≤ y.toNat * 256 ^ s.length := Nat.mul_le_mul_right _ h2
+          rw [Nat.add_mul] at this
+          constructor
+          · intro e; cases e
+          · intro e; omega
+        · simp only [h2, if_false]
+          have hxy : x.toNat = y.toNat := by omega
+          rw [ih s hl, hxy]
+          omega
+
+/-- the counter after `k` messages -/
+def counterAfter : Nat → Bytes
+  | 0 => zeros 8
+  | k + 1 => incCounter (counterAfter k)
+
+/-- the k-th increment of the zero counter holds k (no wrap below 2^64) -/
+theorem counter_value (k : Nat) (hk : k < 2 ^ 64) :
+    natOfBE (counterAfter k) = k ∧ (counterAfter k).length = 8 := by
+  induction k with
+  | zero => exact ⟨by decide, rfl⟩
+  | succ n ih =>
+    obtain ⟨h1, h2⟩ := ih (by omega)
+    refine ⟨?_, by rw [counterAfter, incCounter_length, h2]⟩
+    rw [counterAfter, natOfBE_incCounter, h1, h2]
+    exact Nat.mod_eq_of_lt (by omega)
+
+/-- **counter_monotone.** In one key slot the (k+1)-th message is accepted after the k-th, for every k < 2^64-1,
+    and a replay of the k-th is refused -/
+theorem counter_monotone (k : Nat) (hk : k + 1 < 2 ^ 64) :
+    bytesGt (counterAfter (k + 1)) (counterAfter k) = true ∧ bytesGt (counterAfter k) (counterAfter k) = false := by
+  obtain ⟨v1, l1⟩ := counter_value k (by omega)
+  obtain ⟨v2, l2⟩ := counter_value (k + 1) hk
+  constructor
+  · rw [bytesGt_iff _ _ (by rw [l1, l2]), v1, v2]; omega
+  · cases h : bytesGt (counterAfter k) (counterAfter k) with
+    | false => rfl
+    | true => rw [bytesGt_iff _ _ rfl] at h; omega
+
+
+
+/-! ## data messages: round trip, revealed MAC keys, and the reveal-signature poisoning witness -/
+
+theorem tlvLoop_other (p : Party) (o : Out) (ts : List RTlv) (h : ∀ t ∈ ts, t = .other) :
+    p.tlvLoop o ts = .ok (p, o) := by
+  induction ts with
+  | nil => rfl
+  | cons t ts ih =>
+    have ht := h t (by simp)
+    subst ht
+    simp only [Party.tlvLoop]
+    exact ih (fun t ht => h t (by simp [ht]))
+
+/-- **data_roundtrip.** A data message `d` carrying a NUL-free user text, received by a party that is in
+    the encrypted state and whose key-slot cache resolves the message's key ids to the very DH pair the
+    sender used, with a counter above the slot's last one — the situation of every honest exchange in
+    which no `Send` happens while a re-AKE is in flight — is delivered with exactly the sender's text,
+    flagged encrypted, without error, and nothing is sent back. -/
+theorem data_roundtrip (q q1 : Party) (d : DataMsg) (i : Nat)
+    (henc : q.st = .enc)
+    (hcalc : q.calcDataKeys d.rkid d.skid = (q1, some i))
+    (hkeys : (q1.slots.getD i {}).myDH = d.rdh ∧ (q1.slots.getD i {}).theirDH = d.sdh)
+    (hctr : bytesGt d.ctr (q1.slots.getD i {}).lastCtr = true)
+    (hextra : d.extra = none) (hnul : (0 : UInt8) ∉ d.text) :
+    ∃ q', q.recv (inOfMsg (.data d)) = .ok (q', { out := d.text, enc := true }) := by
+  have hsplit := data_text_roundtrip d.text hnul
+  simp only [inOfMsg, Party.recv, henc, ne_eq, not_true_eq_false, if_false, Bool.not_true, Bool.false_eq_true,
+    hcalc, hkeys, and_self, if_true, Party.acceptData, hctr, Party.deliver, hextra, hsplit]
+  refine ⟨_, tlvLoop_other _ _ _ ?_⟩
+  intro t ht
+  simp only [List.map_cons, List.map_nil, List.mem_singleton] at ht
+  subst ht
+  simp [rtlvOfBytes]
+
+/-! ### revealed MAC keys -/
+
+theorem mem_evictedKeys (f : Slot → Bool) (ss : List Slot) (k : Id × Id) (h : k ∈ evictedKeys f ss) :
+    ∃ s ∈ ss, s.used = true ∧ f s = true ∧ s.macKey = k := by
+  simp only [evictedKeys, List.mem_map, List.mem_filter, Bool.and_eq_true] at h
+  obtain ⟨s, ⟨hs, hu, hf⟩, hk⟩ := h
+  exact ⟨s, hs, hu, hf, hk⟩
+
+theorem calc_oldMacs (p : Party) (a b : Nat) : (p.calcDataKeys a b).1.oldMacs = p.oldMacs := by
+  unfold Party.calcDataKeys
+  repeat' split
+  all_goals rfl
+
+/-- **old_mac_keys_revealed_only_after_rotation.** Between receiving a verified data message and the
+    next `generateData`, `c.oldMACs` grows exactly by the receiving-MAC keys of slots that were in use
+    and are keyed by a key id retired by this message: my previous key id when the message was addressed
+    to my current key (`rotateDHKeys`), the sender's previous key id when it used their current key.
+    A message that triggers no rotation reveals nothing; looking up or re-using a slot
+    (`calc_oldMacs`), storing the counter, reveal nothing. -/
+theorem old_mac_keys_revealed_only_after_rotation (p : Party) (i : Nat) (c : Bytes) (rkid skid : Nat) (next : Id) :
+    ∃ added, (((p.storeCtr i c).rotateMine rkid).rotateTheirs skid next).oldMacs = p.oldMacs ++ added ∧
+      ((rkid ≠ p.myKeyId ∧ skid ≠ p.theirKeyId) → added = []) ∧
+      ∀ k ∈ added, ∃ s : Slot, s.used = true ∧ s.macKey = k ∧
+        ((rkid = p.myKeyId ∧ s.myKeyId = pred32 p.myKeyId) ∨ (skid = p.theirKeyId ∧ s.theirKeyId = pred32 skid)) := by
+  have hm : (p.storeCtr i c).myKeyId = p.myKeyId := rfl
+  have ho : (p.storeCtr i c).oldMacs = p.oldMacs := rfl
+  generalize hp1 : p.storeCtr i c = p1 at hm ho
+  by_cases h1 : rkid = p1.myKeyId
+  · -- my rotation
+    have e1 : p1.rotateMine rkid = p1.rotate := by simp [Party.rotateMine, h1]
+    have hto : p1.rotate.theirKeyId = p1.theirKeyId := by simp [Party.rotate, Party.newId]
+    have hro : p1.rotate.oldMacs = p1.oldMacs ++ evictedKeys (fun s => s.myKeyId == pred32 p1.myKeyId) p1.slots := by
+      simp [Party.rotate, Party.newId]
+    have ht1 : p1.theirKeyId = p.theirKeyId := by rw [← hp1]; rfl
+    rw [e1]
+    by_cases h2 : skid = p1.rotate.theirKeyId
+    · refine ⟨evictedKeys (fun s => s.myKeyId == pred32 p1.myKeyId) p1.slots ++
+          evictedKeys (fun s => s.theirKeyId == pred32 skid) p1.rotate.slots, ?_, ?_, ?_⟩
+      · simp [Party.rotateTheirs, h2, hro, ho]
+      · intro ⟨hn, _⟩; exact absurd (h1.trans hm) hn
+      · intro k hk
+        rcases List.mem_append.mp hk with hk | hk
+        · obtain ⟨s, _, hu, hf, hk⟩ := mem_evictedKeys _ _ _ hk
+          exact ⟨s, hu, hk, Or.inl ⟨h1.trans hm, by rw [← hm]; simpa using hf⟩⟩
+        · obtain ⟨s, _, hu, hf, hk⟩ := mem_evictedKeys _ _ _ hk
+          exact ⟨s, hu, hk, Or.inr ⟨by rw [h2, hto, ht1], by simpa using hf⟩⟩
+    · refine ⟨evictedKeys (fun s => s.myKeyId == pred32 p1.myKeyId) p1.slots, ?_, ?_, ?_⟩
+      · simp [Party.rotateTheirs, h2, hro, ho]
+      · intro ⟨hn, _⟩; exact absurd (h1.trans hm) hn
+      · intro k hk
+        obtain ⟨s, _, hu, hf, hk⟩ := mem_evictedKeys _ _ _ hk
+        exact ⟨s, hu, hk, Or.inl ⟨h1.trans hm, by rw [← hm]; simpa using hf⟩⟩
+  · have e1 : p1.rotateMine rkid = p1 := by simp [Party.rotateMine, h1]
+    have ht1 : p1.theirKeyId = p.theirKeyId := by rw [← hp1]; rfl
+    rw [e1]
+    by_cases h2 : skid = p1.theirKeyId
+    · refine ⟨evictedKeys (fun s => s.theirKeyId == pred32 skid) p1.slots, ?_, ?_, ?_⟩
+      · simp [Party.rotateTheirs, h2, ho]
+      · intro ⟨_, hn⟩; exact absurd (h2.trans ht1) hn
+      · intro k hk
+        obtain ⟨s, _, hu, hf, hk⟩ := mem_evictedKeys _ _ _ hk
+        exact ⟨s, hu, hk, Or.inr ⟨h2.trans ht1, by simpa using hf⟩⟩
+    · refine ⟨[], ?_, fun _ => rfl, fun k hk => by cases hk⟩
+      simp [Party.rotateTheirs, h2, ho]
+
+/-- `generateData` ships exactly the collected keys and empties the list -/
+theorem genData_reveals (p q : Party) (text : Bytes) (extra : Option STlv) (d : DataMsg)
+    (h : p.genData text extra = .ok (q, .data d)) : d.oldMacs = p.oldMacs ∧ q.oldMacs = [] := by
+  unfold Party.genData at h
+  have hc := calc_oldMacs p (pred32 p.myKeyId) p.theirKeyId
+  cases hcalc : p.calcDataKeys (pred32 p.myKeyId) p.theirKeyId with
+  | mk p1 oi =>
+    rw [hcalc] at h hc
+    cases oi with
+    | none => cases h
+    | some i =>
+      simp only [R.ok.injEq, Prod.mk.injEq, Msg.data.injEq] at h
+      obtain ⟨rfl, rfl⟩ := h
+      exact ⟨hc, rfl⟩
+
+/-! ### observation O11: a rejected reveal-signature message poisons the AKE state -/
+
+/-- B holds A's DH commit and awaits the reveal-signature message -/
+def poisonStart : Option (Party × Msg) :=
+  match ({ side := 0 } : Party).recv (.query [1]) with
+  | .ok (a, { send := [commit], .. }) =>
+    match ({ side := 1 } : Party).recv (inOfMsg commit) with
+    | .ok (b, { send := [key], .. }) =>
+      match a.recv (inOfMsg key) with
+      | .ok (_, { send := [reveal], .. }) => some (b, reveal)
+      | _ => none
+    | _ => none
+  | _ => none
+
+/-- the genuine reveal-signature alone is accepted; after a failing one it is refused -/
+def poisonCheck : Bool :=
+  match poisonStart with
+  | some (b, .reveal x y kid) =>
+    (match b.recv (inOfMsg (.reveal x y kid)) with
+     | .ok (b', o) => b'.st == .enc && o.change == chNewKeys
+     | .panic => false) &&
+    (match b.recv (.reveal true true (some x) none) with
+     | .ok (b1, o1) =>
+       o1.err && b1.gxB == .bad &&
+       (match b1.recv (inOfMsg (.reveal x y kid)) with
+        | .ok (b2, o2) => o2.err && b2.st == .plain && o2.change == 0
+        | .panic => false)
+     | .panic => false)
+  | _ => false
+
+/-- **reveal_sig_reject_poisons_state.** After an honest query / DH-commit / DH-key exchange B accepts A's
+    genuine reveal-signature message (NewKeys). But if B first receives a reveal-signature message
+    that reveals the right key `r` and fails later (bad MAC / signature — e.g. one flipped byte),
+    `processRevealSig` has already decrypted `c.gxBytes` in place; the genuine message that follows is
+    then rejected and B stays unencrypted. (Availability only: nothing forged is ever accepted.) -/
+theorem reveal_sig_reject_poisons_state : poisonCheck = true := by decide
+
+
+set_option maxRecDepth 100000 in
+/-- non-vacuity of `data_roundtrip` (and of the whole symbolic data layer): after an AKE the first data
+    message is delivered unchanged -/
+example : (World.run {} [.query true [1], .deliver false, .deliver true, .deliver false, .deliver true,
+      .send true [104, 105], .deliver false]).getLast? =
+    some (some (.recv { out := [104, 105], enc := true } true [])) := by decide
 
 end XC.C47
